@@ -251,7 +251,7 @@ func (e *Engine) iteVal(c T, a, b Value) Value {
 	case IfaceV, SliceV, MapV, ClosureV, StringV, RValue, IteV:
 		return IteV{c: c, a: a, b: b}
 	}
-	panic(engineError{fmt.Sprintf("cannot merge values of type %T under a symbolic guard at %s", a, e.site)})
+	panic(engineError{fmt.Sprintf("cannot merge values of type %T under a symbolic guard at %s", a, e.where())})
 }
 
 func (e *Engine) mptrIte(c T, a, b Value) Value {
